@@ -12,6 +12,20 @@ func (s *State) Stack() []string {
 	if s.depth <= 1 {
 		return nil
 	}
+	if s.Context != nil && s.Context.Err() != nil {
+		// Cancelled / past the deadline: every level being unwound can report it again and walking the whole
+		// stack each time makes returning quadratic in the depth (minutes past the deadline). The stack
+		// at the time the cancellation was first noticed is used for all of them.
+		if s.cancelled != s.Context {
+			s.cancelled = s.Context
+			s.cancelStack = s.walkStack()
+		}
+		return s.cancelStack
+	}
+	return s.walkStack()
+}
+
+func (s *State) walkStack() []string {
 	stack := make([]string, 0, s.depth-1)
 	for e := s.env; e != nil; e = e.StackParent() {
 		n := e.Name()
